@@ -5,6 +5,7 @@ import (
 	"encoding/json"
 	"fmt"
 	"io"
+	"math/rand"
 	"strings"
 	"time"
 
@@ -289,7 +290,108 @@ func runC13(r *Run) error {
 			return fmt.Errorf("case %d %+v: %w", ci, sp, err)
 		}
 	}
+	rounds := 2
+	if r.Tier == "thorough" {
+		rounds = 8
+	}
+	for k := 0; k < rounds; k++ {
+		if err := c13WhileWriting(r, k); err != nil {
+			return fmt.Errorf("snapshot while writing %d: %w", k, err)
+		}
+	}
 	return nil
+}
+
+// c13WhileWriting: a snapshot saved while the store is being written (the log grows during
+// SaveSnapshot).  Either saving fails, or the snapshot loads, on a reopened store, to a log that
+// holds at least what the store held when the save began and nothing it did not hold when it
+// ended - whatever the interleaving, so no outcome of the race can be a false alarm.
+func c13WhileWriting(r *Run, k int) error {
+	ctx := context.Background()
+	typ := []string{"eventlog", "keyvalue"}[k%2]
+	s, err := NewScen(1, typ, nil)
+	if err != nil {
+		return err
+	}
+	defer s.Close()
+	st := s.Stores[0]
+	pre := 120 + r.Rng.Intn(80)
+	for i := 0; i < pre; i++ {
+		if err := c13Write(r, st, fmt.Sprintf("p%d", i%5), 8); err != nil {
+			return err
+		}
+	}
+	before := map[string]bool{}
+	for _, e := range st.OpLog().Values().Slice() {
+		before[e.GetHash().String()] = true
+	}
+	stop := make(chan struct{})
+	done := make(chan int)
+	go func() {
+		n := 0
+		for {
+			select {
+			case <-stop:
+				done <- n
+				return
+			default:
+			}
+			if c13Write(r2(r, k), st, fmt.Sprintf("w%d", n%5), 8) != nil {
+				done <- n
+				return
+			}
+			n++
+		}
+	}()
+	time.Sleep(2 * time.Millisecond)
+	out, msg, _ := c13Save(ctx, st)
+	close(stop)
+	written := <-done
+	s.Settle()
+	after := map[string]bool{}
+	for _, e := range st.OpLog().Values().Slice() {
+		after[e.GetHash().String()] = true
+	}
+	r.Count(fmt.Sprintf("while-writing:save=%s", c13OutcomeName[out]))
+	if out == c13Panic {
+		r.AddDirect("snapshot:while-writing:panic", "SaveSnapshot panicked while the store was being written: "+msg, map[string]interface{}{"round": k, "type": typ})
+		return nil
+	}
+	if out != c13Ok {
+		return nil // saving failed: allowed
+	}
+	if err := c13Reopen(s, 0); err != nil {
+		return err
+	}
+	lo, lmsg := c13Load(ctx, s.Stores[0])
+	s.Settle()
+	got := s.Stores[0].OpLog().Values().Slice()
+	missing, foreign := 0, 0
+	have := map[string]bool{}
+	for _, e := range got {
+		have[e.GetHash().String()] = true
+		if !after[e.GetHash().String()] {
+			foreign++
+		}
+	}
+	for h := range before {
+		if !have[h] {
+			missing++
+		}
+	}
+	descr := map[string]interface{}{"round": k, "type": typ, "entries_before": len(before), "written_meanwhile": written, "load": c13OutcomeName[lo], "load_error": lmsg, "loaded": len(got), "missing": missing, "foreign": foreign}
+	if lo != c13Ok || missing > 0 || foreign > 0 {
+		r.AddDirect("snapshot:while-writing:unloadable", "SaveSnapshot reported success while the store was being written, but the snapshot does not load to the saved log", descr)
+	}
+	r.Count("while-writing:checked")
+	return nil
+}
+
+// r2 gives the writer goroutine a Run with a PRNG of its own (rand.Rand is not goroutine safe)
+func r2(r *Run, k int) *Run {
+	c := *r
+	c.Rng = rand.New(rand.NewSource(int64(7919*k + 13)))
+	return &c
 }
 
 // writeChain performs sp.Len writes on store i; the big value goes to positions
